@@ -294,6 +294,100 @@ def _worker_init(x64: bool, counter=None):
 
     warnings.filterwarnings("ignore")
     _maybe_start_coverage()
+    _maybe_start_param_audit()
+
+
+def _maybe_start_param_audit():
+    """debugging aid (tools/param_audit.sh): VERIF_PARAM_AUDIT=<dir> records, per public class / function of exponax, which keyword values the
+    exploration passes, so that options only ever exercised at their default value can be found"""
+    d = os.environ.get("VERIF_PARAM_AUDIT")
+    if not d:
+        return
+    import collections
+    import functools
+    import inspect
+    import multiprocessing.util as mpu
+
+    import exponax as ex
+
+    os.makedirs(d, exist_ok=True)
+    seen = collections.defaultdict(lambda: collections.defaultdict(set))
+
+    def short(v):
+        try:
+            if hasattr(v, "shape") and getattr(v, "ndim", 0) > 0:
+                return f"<array{tuple(v.shape)}>"
+            return repr(v)[:40]
+        except Exception:
+            return "<?>"
+
+    def record(name, sig, args, kwargs):
+        try:
+            ba = sig.bind(*args, **kwargs)
+        except Exception:
+            return
+        for n, v in ba.arguments.items():
+            if n == "self":
+                continue
+            dflt = sig.parameters[n].default
+            if dflt is inspect._empty:
+                seen[name][n].add(short(v))
+            else:
+                seen[name][n].add("<default>" if short(v) == short(dflt) else short(v))
+        for n, prm in sig.parameters.items():
+            if n not in ba.arguments and prm.default is not inspect._empty:
+                seen[name][n].add("<default>")
+
+    def wrap_class(cls):
+        if "__init__" not in cls.__dict__:
+            return
+        o = cls.__dict__["__init__"]
+        sig = inspect.signature(o)
+
+        @functools.wraps(o)
+        def init(self, *a, **k):
+            if type(self) is cls:
+                record(cls.__module__.replace("exponax.", "") + "." + cls.__name__, sig, (self,) + a, k)
+            return o(self, *a, **k)
+
+        try:
+            cls.__init__ = init
+        except Exception:
+            pass
+
+    def wrap_fun(mod, nm, f):
+        sig = inspect.signature(f)
+
+        @functools.wraps(f)
+        def g(*a, **k):
+            record(mod.__name__.replace("exponax.", "") + "." + nm, sig, a, k)
+            return f(*a, **k)
+
+        setattr(mod, nm, g)
+
+    mods = [ex, ex.stepper, ex.stepper.generic, ex.stepper.reaction, ex.nonlin_fun, ex.ic, ex.metrics, ex.etdrk, ex.spectral]
+    done = set()
+    for mod in mods:
+        for nm in getattr(mod, "__all__", []):
+            obj = getattr(mod, nm, None)
+            if id(obj) in done:
+                continue
+            if isinstance(obj, type):
+                done.add(id(obj))
+                wrap_class(obj)
+            elif inspect.isfunction(obj) and mod in (ex, ex.metrics, ex.spectral):
+                done.add(id(obj))
+                wrap_fun(mod, nm, obj)
+
+    def _save():
+        out = {c: {n: sorted(v)[:12] for n, v in ps.items()} for c, ps in seen.items()}
+        with open(os.path.join(d, f"audit.{os.getpid()}.json"), "w") as fh:
+            json.dump(out, fh)
+
+    mpu.Finalize(None, _save, exitpriority=90)
+    import atexit
+
+    atexit.register(_save)
 
 
 def _maybe_start_coverage():
